@@ -13,7 +13,7 @@ from . import c06
 RULE = ("Base case x generated mild event schedule x generated interruption history: 1..3 interruption times drawn "
         "from classes (on grid, off grid, exactly at / 1e-4 before / 1e-4 after an event) each handled by 'extend tf "
         "and run again', 'snapshot -> load in this process -> continue' or 'snapshot -> load in a fresh process -> "
-        "continue'. Twins: one uninterrupted run, and the same with half the step (discretisation estimate). Oracle: "
+        "continue'. The base case may carry a device whose equations use the value of the simulation time (ShuntTD). Twins: one uninterrupted run, and the same with half the step (discretisation estimate). Oracle: "
         "event firings identical as multisets (nothing lost or repeated across a boundary), strictly increasing time "
         "axis containing every boundary and tf, split trajectory within 2*|x_h - x_h/2| + 50*tol of the single run at "
         "tf, snapshot-restored continuation bitwise equal to the in-process continuation, and reset()+PFlow.run() "
@@ -59,7 +59,9 @@ def histories(draw):
         if 0 < t < tf:
             cuts.append(dict(t=float(t), cls=cls, how=draw(st.sampled_from(['resume', 'resume', 'snapshot', 'snapshot', 'fresh']))))
     cuts = sorted({c['t']: c for c in cuts}.values(), key=lambda c: c['t'])
-    return dict(base=base, tf=tf, tstep=tstep, events=ev, cuts=cuts)
+    # a device whose equations use the value of the simulation time (instantaneous phase voltages of a shunt)
+    extra = draw(st.sampled_from([None, None, dict(model='ShuntTD', sel=draw(st.integers(0, 30)))]))
+    return dict(base=base, tf=tf, tstep=tstep, events=ev, cuts=cuts, extra=extra)
 
 
 def prepare(c, tstep=None, tf=None):
@@ -67,6 +69,9 @@ def prepare(c, tstep=None, tf=None):
     rc = {'PFlow': dict(report=0), 'TDS': dict(no_tqdm=1, tf=tf if tf is not None else c['tf'], tstep=tstep or c['tstep'], criteria=0)}
     ss = build.load_case(path, rc=rc, setup=False)
     recs = c06.materialise(ss, dict(events=c['events']))
+    if c.get('extra'):
+        k = c['extra']['sel'] % ss.Bus.n
+        ss.add('ShuntTD', dict(idx='VTD', bus=ss.Bus.idx.v[k], Vn=ss.Bus.Vn.v[k], Sn=100.0, g=0.0, b=0.02))
     ss.setup()
     if not ss.PFlow.run():
         return None
@@ -100,7 +105,7 @@ np.savez(%r, x=ss.dae.x, y=ss.dae.y, t=np.array(ss.dae.ts.t), ok=np.array(bool(o
 
 def history_case(ctx, c):
     from andes.utils.snapshot import load_ss, save_ss
-    brief = dict(base=c['base'], tf=c['tf'], tstep=c['tstep'], cuts=c['cuts'],
+    brief = dict(base=c['base'], tf=c['tf'], tstep=c['tstep'], cuts=c['cuts'], extra=c.get('extra'),
                  events=[{k: e[k] for k in ('kind', 't', 'sel') if k in e} for e in c['events']])
     # ---- uninterrupted twins ---------------------------------------------------------------------------------
     single = prepare(c)
@@ -118,6 +123,7 @@ def history_case(ctx, c):
     if len(single.dae.x) == 0:
         return
     est = np.abs(single.dae.x - half.dae.x)
+    est_y = np.abs(single.dae.y - half.dae.y)
     # ---- interrupted run ---------------------------------------------------------------------------------------------
     ss = prepare(c, tf=c['cuts'][0]['t'] if c['cuts'] else c['tf'])
     mons = [sim.Monitor(ss, keep_vectors=False).attach()]
@@ -209,6 +215,15 @@ def history_case(ctx, c):
         i = int(np.argmax(d - allow))
         ctx.fail('split_trajectory_differs_from_single_run', dict(history=brief, state=single.dae.x_name[i], split=float(ss.dae.x[i]),
                                                                   single=float(single.dae.x[i]), allowance=float(allow[i])), sig=dict())
+    dy = np.abs(ss.dae.y - single.dae.y)
+    allow_y = 2 * est_y + 50 * tol * (1 + np.abs(single.dae.y))
+    if np.any(dy > allow_y):
+        i = int(np.argmax(dy - allow_y))
+        ctx.fail('split_trajectory_differs_from_single_run', dict(history=brief, variable=single.dae.y_name[i], split=float(ss.dae.y[i]),
+                                                                  single=float(single.dae.y[i]), allowance=float(allow_y[i])),
+                 sig=dict(algebraic=True))
+    if c.get('extra'):
+        ctx.count('extra:time_valued_device')
     near = any(cut['cls'] in ('at_event', 'before_event', 'after_event', 'offgrid') for cut in c['cuts'])
     if near and c['cuts'] and f_single:
         ctx.nontrivial(brief, sample=dict(history=brief, stamps=len(ts), firings=sum(f_split.values()),
@@ -220,6 +235,14 @@ def camp_hist(ctx):
         ctx.evaluated()
         history_case(ctx, c)
     quick = ctx.tier == 'quick'
+    if ctx.shard < 2:
+        # anchor: a device whose equations use the value of the simulation time, interrupted off the grid (resume / snapshot)
+        c = dict(base=BASES[ctx.shard % len(BASES)], tf=1.0, tstep=1 / 30,
+                 events=[dict(kind='toggle_line', t=0.3123, cls='offgrid', u=1, sel=3), dict(kind='toggle_line', t=0.4123, cls='offgrid', u=1, sel=3)],
+                 cuts=[dict(t=0.4321, cls='offgrid', how='resume' if ctx.shard == 0 else 'snapshot')], extra=dict(model='ShuntTD', sel=6))
+        ctx.current_case = c
+        ctx.count('anchor:time_valued_device')
+        body(c)
     drive(ctx, histories(), body, 3 if quick else 80, name='resume', chunk=3, shrink=False, budget_s=170 if quick else 1500)
 
 
